@@ -446,10 +446,29 @@ func (g *gen) behC08() M {
 			}
 		}
 		steps = append(steps, send(M{"t": "B", "portal": portal, "stmt": name, "pfmt": g.codeList(np), "params": params, "rfmt": g.codeList(nc)}))
+		other := ""
+		if g.chance(0.5) {
+			// a second portal on the same statement, bound afterwards with other parameters and result
+			// formats, stays alive next to the first one: each keeps what its own Bind said
+			other = g.pick("o1", "o2")
+			params2 := []any{}
+			for i := 0; i < np; i++ {
+				if g.chance(0.2) {
+					params2 = append(params2, M{"null": true})
+				} else {
+					params2 = append(params2, M{"null": false, "cls": "short"})
+				}
+			}
+			steps = append(steps, send(M{"t": "B", "portal": other, "stmt": name, "pfmt": g.codeList(np), "params": params2, "rfmt": g.codeList(nc)}))
+		}
 		if g.chance(0.7) {
 			steps = append(steps, send(M{"t": "D", "kind": "P", "name": portal}))
 		}
-		steps = append(steps, send(M{"t": "E", "portal": portal, "max": 0}), send(M{"t": "S"}))
+		steps = append(steps, send(M{"t": "E", "portal": portal, "max": 0}))
+		if other != "" && other != portal {
+			steps = append(steps, send(M{"t": "D", "kind": "P", "name": other}), send(M{"t": "E", "portal": other, "max": 0}))
+		}
+		steps = append(steps, send(M{"t": "S"}))
 	}
 	cfg := baseCfg()
 	cfg["limit"] = 1 << 20
@@ -553,7 +572,7 @@ func (g *gen) behC13() M {
 		ext := g.chance(0.3)
 		if ext {
 			steps = append(steps, send(M{"t": "P", "name": "", "q": q, "noids": 0}),
-				send(M{"t": "B", "portal": "", "stmt": "", "pfmt": []any{}, "params": []any{}, "rfmt": []any{}}),
+				send(M{"t": "B", "portal": "", "stmt": "", "pfmt": []any{}, "params": []any{}, "rfmt": g.codeList(nc)}),
 				send(M{"t": "E", "portal": "", "max": 0}))
 		} else {
 			steps = append(steps, send(M{"t": "Q", "q": q}))
@@ -571,10 +590,21 @@ func (g *gen) behC13() M {
 			case 3:
 				m = M{"t": "S"}
 			case 4:
-				if g.chance(0.3) {
+				switch g.rng.Intn(5) {
+				case 0:
 					g.id++
 					m = M{"t": "Q", "q": M{"id": g.id, "parse": "ok", "stmts": []any{M{"id": g.id, "cols": []any{}, "oids": []any{}, "prog": []any{M{"op": "complete", "tag": "X"}, M{"op": "ret", "r": "nil"}}}}}}
-				} else {
+				case 1:
+					m = M{"t": "E", "portal": "", "max": 0}
+				case 2:
+					m = M{"t": "D", "kind": "P", "name": ""}
+				case 3:
+					if r == rounds-1 {
+						m = M{"t": "X"} // Terminate in the middle of a COPY is a foreign message like any other
+					} else {
+						m = M{"t": "U"}
+					}
+				default:
 					m = M{"t": "U"}
 				}
 			default:
@@ -753,6 +783,14 @@ func (g *gen) behC19() M {
 				q["stmts"] = append(q["stmts"].([]any), M{"id": g.id, "cols": []any{}, "oids": []any{}, "prog": []any{M{"op": "complete", "tag": "OK2"}, M{"op": "ret", "r": "nil"}}})
 			}
 			steps = append(steps, send(M{"t": "Q", "q": q}))
+		}
+	}
+	if g.chance(0.3) {
+		// a failing extended-protocol message, no Sync: the session is discarding when Terminate arrives
+		g.id++
+		steps = append(steps, send(M{"t": "P", "name": "", "q": M{"id": g.id, "parse": "err", "perr": g.simpleErr(), "stmts": []any{}}, "noids": 0}))
+		if g.chance(0.5) {
+			steps = append(steps, send(M{"t": "E", "portal": "", "max": 0}))
 		}
 	}
 	if g.chance(0.6) {
@@ -964,6 +1002,14 @@ func (g *gen) behC09() M {
 					cells = append(cells, M{"c": "v"})
 				}
 			}
+			if g.chance(0.12) {
+				// a row that is rejected (an unencodable value somewhere): nothing of it may reach the client,
+				// and the rows after it arrive intact
+				bad := make([]any, len(cells))
+				copy(bad, cells)
+				bad[g.rng.Intn(len(bad))] = M{"c": "bad"}
+				prog = append(prog, M{"op": "row", "cells": bad})
+			}
 			prog = append(prog, M{"op": "row", "cells": cells})
 		}
 		prog = append(prog, M{"op": "complete", "tag": "SELECT"}, M{"op": "ret", "r": "nil"})
@@ -1016,6 +1062,11 @@ func (g *gen) behC03() M {
 	if g.chance(0.3) {
 		steps = append(steps, send(M{"t": "Bad", "ty": g.pick("Q", "P", "B", "D", "E"), "cls": g.pick("nonul", "short", "count")}),
 			send(M{"t": "Q", "q": g.trivialQ()}), send(M{"t": "S"}))
+	}
+	if g.chance(0.3) {
+		// a refused SSL negotiation first: the startup packet may arrive in the same segment as the SSLRequest
+		run.AsM(b["cfg"])["tls"] = g.pick("nil", "empty")
+		steps = append([]any{send(M{"t": "SSLRequest", "stuffed": false})}, steps...)
 	}
 	b["steps"] = steps
 	return b
